@@ -253,10 +253,14 @@ impl<Octs: Composer> Opt<Octs> {
     where
         F: FnOnce(&mut Octs) -> Result<(), Octs::AppendError>,
     {
+        // The option is preceded by its code and length, two octets each.
         LongOptData::check_len(
             self.octets
                 .as_ref()
                 .len()
+                .saturating_add(usize::from(
+                    OptionCode::COMPOSE_LEN + u16::COMPOSE_LEN,
+                ))
                 .saturating_add(usize::from(option_len)),
         )?;
 
